@@ -28,6 +28,17 @@ BIG_FULL = "\n".join(("+--+ %04d text here" % i) + "\n|  | .-. \n+--+ '-' " for 
 # conversion time is quadratic in the body size (20 kB: 1.5 s): the quick tier uses a 6 kB body, the thorough tier the full 20 kB
 BIG = BIG_FULL[:6000] if (len(sys.argv) > 2 and sys.argv[2] == "quick") else BIG_FULL
 CJK = "┌──┐ 一二三\n│é │\n└──┘"
+FFFD = "a \ufffd b\n+--+ \ufffd"
+
+
+def chunked(body, piece=7):
+    out = b""
+    for i in range(0, len(body), piece):
+        part = body[i:i + piece]
+        out += b"%x\r\n" % len(part) + part + b"\r\n"
+    return out + b"0\r\n\r\n"
+
+
 # dense non-ASCII body larger than the server's read buffer (multi-byte characters straddle every internal boundary)
 DENSE = ("┌" + "─" * 60 + "┐ 一二三四五六七八九十\n") * 40
 # a valid body of exactly the framework's limit (2 MiB): a small drawing padded with blanks
@@ -76,6 +87,10 @@ def kinds(docs):
         "post-hostile": (post(HOSTILE.encode()), HOSTILE.encode(), 200, docs[HOSTILE]),
         "post-20k": (post(BIG.encode()), BIG.encode(), 200, docs[BIG]),
         "post-cjk": (post(CJK.encode()), CJK.encode(), 200, docs[CJK]),
+        # a valid body that contains the replacement character itself
+        "post-fffd": (post(FFFD.encode()), FFFD.encode(), 200, docs[FFFD]),
+        # the same small diagram sent with chunked transfer encoding (no Content-Length)
+        "post-chunked": (b"POST / HTTP/1.1\r\nHost: t\r\nTransfer-Encoding: chunked\r\nConnection: close\r\n\r\n", chunked(SMALL.encode()), 200, docs[SMALL]),
         "post-dense-unicode": (post(DENSE.encode()), DENSE.encode(), 200, docs[DENSE]),
         "post-bad-utf8": (post(b"+-\xff\xfe-+"), b"+-\xff\xfe-+", 400, None),
         "post-too-big": (post(big_body), big_body, 413, None),
@@ -311,8 +326,8 @@ def interleavings(n_clients, n_events):
 def main():
     mode = sys.argv[1]
     build_binaries()
-    docs = library_docs([SMALL, "", HOSTILE, BIG, CJK, ATLIMIT, DENSE])
-    if any(v is None for v in docs.values()) or len(docs) != 7:
+    docs = library_docs([SMALL, "", HOSTILE, BIG, CJK, ATLIMIT, DENSE, FFFD])
+    if any(v is None for v in docs.values()) or len(docs) != 8:
         print("MACHINERY-ERROR: cannot obtain the library's documents")
         sys.exit(2)
     K = kinds(docs)
